@@ -497,29 +497,51 @@ def rect_overlap(ax, ay, aw, ah, bx, by, bw, bh):
             and aw > EPS and ah > EPS and bw > EPS and bh > EPS)
 
 
-def judge_floats(res):
+SPACE = 10.0      # width of a space in the test font at 10px
+
+
+def pulled_up(res):
+    """floats met in a line whose final top is above the one float.py decided (mechanism of finding F51)"""
+    byidx = {r['idx']: r for r in res['recs']}
+    return {r['idx'] for r in res['recs']
+            if r['kind'] == 'float' and r.get('placed') and byidx.get(r['parent'], {}).get('kind') == 'line'
+            and r['y'] < r['placed'][1] - EPS}
+
+
+def shifted_sideways(res):
+    """floats met in a line whose final x differs from the one float.py decided: moved with the text of the line by
+    get_next_linebox's line.translate(offset_x, ...) (text-align, rtl)"""
+    byidx = {r['idx']: r for r in res['recs']}
+    return {r['idx'] for r in res['recs']
+            if r['kind'] == 'float' and r.get('placed') and byidx.get(r['parent'], {}).get('kind') == 'line'
+            and abs(r['x'] - r['placed'][0]) > EPS}
+
+
+def judge_floats_raw(res, believed=False):
     """The nine rules of CSS 2.1 9.5.1 and the no-overlap / clear clauses on one rendered document.
-    Returns [(clause, id, detail)]."""
+    Floats are taken in SOURCE order (a float deferred to the end of its line is a later child of the line box than
+    the floats met after it).  believed=True: floats re-aligned after their placement are put back where float.py
+    placed them (what context.excluded_shapes recorded).
+    Returns [(clause, id, detail, key)], key = hashable identity of the alarm."""
     bad = []
     if res['npages'] != 1:
-        return [('single-page', None, res['npages'])]
+        return [('single-page', None, res['npages'], ('single-page',))]
     recs = res['recs']
-    floats = [r for r in recs if r['kind'] == 'float']
+    if believed:
+        pu = pulled_up(res)
+        sh = shifted_sideways(res) if believed == 'xy' else set()
+        recs = [dict(r, x=(r['placed'][0] if r['idx'] in sh else r['x']), y=(r['placed'][1] if r['idx'] in pu else r['y']))
+                if (r['idx'] in pu or r['idx'] in sh) else r for r in recs]
+    floats = sorted((r for r in recs if r['kind'] == 'float'),
+                    key=lambda r: (r['src'] if r.get('src') is not None else 10 ** 9, r['idx']))
     byidx = {r['idx']: r for r in recs}
+
+    def add(clause, eid, detail, *key):
+        bad.append((clause, eid, detail, (clause,) + key))
     for f in floats:
         if f['bh'] < EPS and (f['x'] < f['cbx'] - EPS or f['y'] < f['cby'] - EPS):
             # zero-height floats are sent to the page origin (open finding F39); not generated, one corpus case
-            bad.append(('zero-height-float', f['id'], (f['x'], f['y'])))
-    children_of = {}
-    for r in recs:
-        children_of.setdefault(r['parent'], []).append(r)
-
-    def descendants(idx):
-        out = []
-        for c in children_of.get(idx, []):
-            out.append(c)
-            out += descendants(c['idx'])
-        return out
+            add('zero-height-float', f['id'], (f['x'], f['y']), f['idx'])
     for i, f in enumerate(floats):
         earlier = floats[:i]
         x, y, mw, mh = f['x'], f['y'], f['mw'], f['mh']
@@ -528,43 +550,44 @@ def judge_floats(res):
             continue
         # rule 1
         if f['side'] == 'left' and x < cbx - EPS:
-            bad.append(('rule1-left-edge-inside-cb', f['id'], (x, cbx)))
+            add('rule1-left-edge-inside-cb', f['id'], (x, cbx), f['idx'])
         if f['side'] == 'right' and x + mw > cbx + cbw + EPS:
-            bad.append(('rule1-right-edge-inside-cb', f['id'], (x + mw, cbx + cbw)))
+            add('rule1-right-edge-inside-cb', f['id'], (x + mw, cbx + cbw), f['idx'])
         # rules 2, 3: no overlap with any earlier float
         for e in earlier:
             if rect_overlap(x, y, mw, mh, e['x'], e['y'], e['mw'], e['mh']):
-                bad.append(('rule2-3-floats-overlap', f['id'], (e['id'], (x, y, mw, mh), (e['x'], e['y'], e['mw'], e['mh']))))
+                add('rule2-3-floats-overlap', f['id'], (e['id'], (x, y, mw, mh), (e['x'], e['y'], e['mw'], e['mh'])),
+                    f['idx'], e['idx'])
         # rule 4
         if y < cby - EPS:
-            bad.append(('rule4-above-containing-block', f['id'], (y, cby)))
-        # rule 5
+            add('rule4-above-containing-block', f['id'], (y, cby), f['idx'])
+        # rule 5: not above a float generated by an earlier element
         for e in earlier:
             if y < e['y'] - EPS:
-                bad.append(('rule5-above-earlier-float', f['id'], (e['id'], y, e['y'])))
+                add('rule5-above-earlier-float', f['id'], (e['id'], y, e['y']), f['idx'], e['idx'])
         # rule 6: not above an earlier line box (nor the one it occurs in)
         for r in recs:
             if r['kind'] == 'line' and r['idx'] < f['idx'] and y < r['y'] - EPS:
-                bad.append(('rule6-above-earlier-line', f['id'], (r['id'], y, r['y'])))
+                add('rule6-above-earlier-line', f['id'], (r['id'], y, r['y']), f['idx'], r['idx'])
         # rule 7: sticks out only when nothing is to its side
         band = [e for e in earlier if v_overlap(y, mh, e['y'], e['mh']) and e['mh'] > EPS]
         if f['side'] == 'left' and x + mw > cbx + cbw + EPS and any(e['side'] == 'left' and e['x'] + e['mw'] <= x + EPS and e['mw'] > EPS for e in band) and mh > EPS:
-            bad.append(('rule7-left-float-sticks-out-next-to-another', f['id'], (x + mw, cbx + cbw)))
+            add('rule7-left-float-sticks-out-next-to-another', f['id'], (x + mw, cbx + cbw), f['idx'])
         if f['side'] == 'right' and x < cbx - EPS and any(e['side'] == 'right' and e['x'] >= x + mw - EPS and e['mw'] > EPS for e in band) and mh > EPS:
-            bad.append(('rule7-right-float-sticks-out-next-to-another', f['id'], (x, cbx)))
+            add('rule7-right-float-sticks-out-next-to-another', f['id'], (x, cbx), f['idx'])
         if mh <= EPS or f['bh'] < EPS:
             continue
         # clear
         for e in earlier:
             if f['clear'] in (e['side'], 'both') and y < e['y'] + e['mh'] - EPS:
-                bad.append(('clear-float-below', f['id'], (e['id'], y, e['y'] + e['mh'])))
+                add('clear-float-below', f['id'], (e['id'], y, e['y'] + e['mh']), f['idx'], e['idx'])
         # rule 9: as far to its side as possible
         if f['side'] == 'left':
             if not (abs(x - cbx) < EPS or any(e['side'] == 'left' and abs(e['x'] + e['mw'] - x) < EPS for e in band)):
-                bad.append(('rule9-left-float-not-far-left', f['id'], (x, cbx)))
+                add('rule9-left-float-not-far-left', f['id'], (x, cbx), f['idx'])
         else:
             if not (abs(x + mw - cbx - cbw) < EPS or any(e['side'] == 'right' and abs(e['x'] - x - mw) < EPS for e in band)):
-                bad.append(('rule9-right-float-not-far-right', f['id'], (x + mw, cbx + cbw)))
+                add('rule9-right-float-not-far-right', f['id'], (x + mw, cbx + cbw), f['idx'])
         # rule 8: as high as possible.  A safe (high) lower bound of where the float may start:
         low = cby
         for e in earlier:
@@ -584,7 +607,7 @@ def judge_floats(res):
             lb = max([cbx] + [e['x'] + e['mw'] for e in b2 if e['side'] == 'left'])
             rb = min([cbx + cbw] + [e['x'] for e in b2 if e['side'] == 'right'])
             if not b2 or mw <= rb - lb + EPS:
-                bad.append(('rule8-float-could-be-higher', f['id'], (y, y2, (lb, rb, mw))))
+                add('rule8-float-could-be-higher', f['id'], (y, y2, (lb, rb, mw)), f['idx'])
                 break
     # lines, formatting-context roots and tables never overlap a float's margin box; clear moves below
     for r in recs:
@@ -596,13 +619,70 @@ def judge_floats(res):
                 if r['parent'] == f['idx']:
                     continue
                 if rect_overlap(rx, ry, rw, rh, f['x'], f['y'], f['mw'], f['mh']):
-                    bad.append(('%s-overlaps-float' % r['kind'], r['id'], (f['id'], (rx, ry, rw, rh), (f['x'], f['y'], f['mw'], f['mh']))))
+                    add('%s-overlaps-float' % r['kind'], r['id'], (f['id'], (rx, ry, rw, rh), (f['x'], f['y'], f['mw'], f['mh'])),
+                        r['idx'], f['idx'])
         if r['kind'] in ('block', 'bfc', 'table') and r['clear'] != 'none' and not r['anon']:
             for f in floats:
                 if f['idx'] < r['idx'] and r['clear'] in (f['side'], 'both') and f['bh'] >= EPS and f['mh'] > EPS:
                     if r['by'] < f['y'] + f['mh'] - EPS:
-                        bad.append(('clear-block-below', r['id'], (f['id'], r['by'], f['y'] + f['mh'])))
+                        add('clear-block-below', r['id'], (f['id'], r['by'], f['y'] + f['mh']), r['idx'], f['idx'])
     return bad
+
+
+def judge_floats(res):
+    """judge_floats_raw + attribution of each single alarm to an open finding, by the finding's own mechanism
+    observed on the very boxes of the alarm; everything else keeps the plain clause signature.
+    Returns [(clause, id, detail, signature or None)]."""
+    raw = judge_floats_raw(res)
+    if not raw or raw[0][0] == 'single-page':
+        return [(c, e, d, None) for c, e, d, _ in raw]
+    recs = res['recs']
+    byidx = {r['idx']: r for r in recs}
+    pu = pulled_up(res)
+    sh = shifted_sideways(res)
+    believed = {k for _, _, _, k in judge_floats_raw(res, believed='y')} if pu else None
+    believed_xy = {k for _, _, _, k in judge_floats_raw(res, believed='xy')} if sh else None
+    floats = [r for r in recs if r['kind'] == 'float']
+    out = []
+    for clause, eid, detail, key in raw:
+        sig = None
+        if clause == 'zero-height-float':
+            sig = 'zero-height-float-placed-at-page-origin'                      # F39
+        elif believed is not None and key not in believed:
+            # the alarm disappears when the floats re-aligned to the top of their line are put back where
+            # float.py placed them: F51 (the float itself, or a later box laid out against the recorded position)
+            sig = 'inline-float-realigned-to-line-top'
+        elif believed_xy is not None and key not in believed_xy:
+            # ... and likewise for the floats moved sideways with the text of their line (text-align, rtl)
+            sig = 'inline-float-moved-with-line-offset'
+        elif clause == 'rule5-above-earlier-float' and pu and \
+                (byidx[key[2]].get('seq') is not None and byidx[key[1]].get('seq') is not None) and \
+                byidx[key[2]]['seq'] < byidx[key[1]]['seq'] and \
+                any(byidx[key[2]]['seq'] < byidx[q]['seq'] < byidx[key[1]]['seq'] and byidx[q]['y'] < byidx[key[2]]['y'] - EPS
+                    for q in pu if byidx[q].get('seq') is not None):
+            # placed after the earlier float, and a float placed between the two was re-aligned above the earlier
+            # one afterwards: find_float_position only looks at the last excluded shape (the list is no longer sorted)
+            sig = 'inline-float-realigned-to-line-top'
+        elif clause.startswith(('rule8', 'rule9')) and byidx[key[1]].get('stale'):
+            # the float was placed against a list of excluded shapes still holding the boxes of an earlier layout pass
+            # of its own line: only the choice of the position among the shapes (rules 8, 9) is explained by that
+            sig = 'float-relayout-stale-excluded-shapes'
+        elif clause == 'line-overlaps-float':
+            line, f = byidx[key[1]], byidx[key[2]]
+            if f['parent'] == line['idx'] and line.get('float_after_content'):
+                # in-flow content of the line that holds the float, met after other content: F50
+                sig = 'inline-float-text-not-shifted'
+            else:
+                # F135: the line fits in the band at its height but not with its trailing space, and is placed
+                # with the position found lower
+                band = [e for e in floats if e['idx'] != line['idx'] and e['parent'] != line['idx'] and e['mh'] > EPS
+                        and v_overlap(line['y'], line['mh'], e['y'], e['mh'])]
+                lb = max([line['cbx']] + [e['x'] + e['mw'] for e in band if e['side'] == 'left'])
+                rb = min([line['cbx'] + line['cbw']] + [e['x'] for e in band if e['side'] == 'right'])
+                if line['cw'] <= rb - lb + EPS < line['cw'] + SPACE:
+                    sig = 'float-line-realigned-with-width-including-trailing-space'
+        out.append((clause, eid, detail, sig))
+    return out
 
 
 def judge_monitor(run, m):
@@ -619,13 +699,15 @@ def judge_monitor(run, m):
         bad, n = judge(d, o)
         njudged += n
         seen = set()
-        for clause, eid, detail in bad:
-            if clause in seen:
+        for entry in bad:
+            clause, eid, detail = entry[:3]
+            sig = entry[3] if len(entry) > 3 else None
+            if sig is None and resign:
+                sig = resign(clause, o, d, eid)
+            sig = sig or '%s:%s' % (sig_prefix, clause)
+            if (clause, sig) in seen:          # one report per clause and attribution and document
                 continue
-            seen.add(clause)
-            sig = '%s:%s' % (sig_prefix, clause)
-            if resign:
-                sig = resign(clause, o, d, eid) or sig
+            seen.add((clause, sig))
             run.fail('%s: %s fails for #%s: %s' % (name, clause, eid, detail),
                      {'stream': name, 'fn': fn, 'doc': d, 'clause': clause, 'element': eid, 'detail': detail},
                      signature=sig)
@@ -633,17 +715,53 @@ def judge_monitor(run, m):
     run.stream_info(name, rule=m['rule'], judged_boxes=njudged, judge='Python (floats compared with a stated tolerance)', **m['info'])
 
 
-def inline_float_mechanisms(res):
-    """Which of the two open findings about floats met inside a line are at work in this render."""
-    mech = set()
-    byidx = {r['idx']: r for r in res['recs']}
-    for r in res['recs']:
-        if r['kind'] == 'float' and r.get('placed') and byidx.get(r['parent'], {}).get('kind') == 'line':
-            if r['y'] < r['placed'][1] - EPS:
-                mech.add('D')          # F51: realigned to the top of its line after placement
-        if r['kind'] == 'line' and r.get('float_after_content'):
-            mech.add('E')              # F50: content following a float met in mid-line is not shifted
-    return mech
+def gen_midline_doc(rng):
+    """paragraphs with 2..4 floats met in the MIDDLE of the text of one line: after some words, widths around the room
+    left on the line (fits / just fits / just does not fit / wider than the block), left and right mixed, ltr and rtl,
+    spans and divs, sometimes a block-level float before the paragraph."""
+    W = rng.choice([100, 150, 200])
+    direction = rng.choice(['ltr', 'ltr', 'rtl'])
+    ids = [0]
+
+    def nid(p):
+        ids[0] += 1
+        return '%s%d' % (p, ids[0])
+    paras = []
+    for _ in range(rng.choice([1, 1, 2, 3])):
+        lead = ''
+        avail = W
+        if rng.random() < 0.3:
+            w0 = rng.choice([20, 40, W // 2])
+            lead = '<div id="%s" style="float:%s;width:%dpx;height:%dpx"></div>' % (
+                nid('f'), rng.choice(['left', 'right']), w0, rng.choice([10, 25, 40]))
+            avail = W - w0
+        words = [rng.choice(WORDS[:6]) for _ in range(rng.randint(1, 3))]
+        used = sum(len(w) for w in words) * 10 + (len(words) - 1) * 10      # without the trailing space
+        parts = [' '.join(words) + ' ']
+        room = avail - used
+        for k in range(rng.randint(2, 4)):
+            width = rng.choice([room - 10, room, room + 10, room - 30, W, W + 20, 10, 20, 30])
+            width = max(5, width)
+            st = ['float:%s' % rng.choice(['left', 'right']), 'width:%dpx' % width,
+                  'height:%dpx' % rng.choice([10, 10, 15, 20, 30])]
+            # no margins/paddings: the fit test of a float met in a line ignores them (reported deviation)
+            if rng.random() < 0.05:
+                st.append('clear:%s' % rng.choice(['left', 'right', 'both']))
+            tag = rng.choice(['span', 'span', 'div'])
+            parts.append('<%s id="%s" style="%s"></%s>' % (tag, nid('f'), ';'.join(st), tag))
+            if width <= room and rng.random() < 0.7:
+                room -= width
+            if rng.random() < 0.35:
+                w = rng.choice(WORDS[:4])
+                parts.append(w + ' ')
+                room -= (len(w) + 1) * 10
+        parts.append(' '.join(rng.choice(WORDS) for _ in range(rng.randint(0, 8))))
+        paras.append('%s<div id="%s" class="p">%s</div>' % (lead, nid('p'), ''.join(parts)))
+    cst = ['width:%dpx' % W, 'direction:%s' % direction]
+    if rng.random() < 0.3:
+        cst.append('margin-left:%dpx' % rng.choice([10, 25]))
+    return ('<style>@page{size:420px 20000px;margin:%dpx}body{margin:0;font-family:weasyprint;font-size:10px;'
+            'line-height:10px}</style><div id="c" style="%s">%s</div>' % (rng.choice([0, 10]), ';'.join(cst), ''.join(paras)))
 
 
 def check_float_monitor(S, rng, thorough):
@@ -653,26 +771,22 @@ def check_float_monitor(S, rng, thorough):
                 '1..12 left/right floats (fixed size or shrink-to-fit text, margins, padding, borders, clear) as blocks '
                 'and inside paragraphs, with paragraphs, overflow:hidden roots, tables, one nested narrower block; '
                 'containers 150/200/320px; every float judged by the nine rules of 9.5.1 against all earlier floats and '
-                'lines, every line/root/table against every float', 'floats', resign=float_resign)
+                'lines, every line/root/table against every float', 'floats')
     # floats met inside paragraphs: two open findings (F50, F51) live there; alarms are attributed to them only when
     # their mechanism is observed in that very render
     docs = [{'html': gen_float_doc(rng, inline_floats=True)} for _ in range(600 if thorough else 120)]
     S.add_monitor('render-floats-inline', 'render_floats', docs,
                 lambda d, o: (judge_floats(o), sum(1 for r in o['recs'] if r['kind'] == 'float')),
-                'same grammar with up to 3 floats inside the text of each paragraph', 'floats', resign=float_resign)
-
-
-def float_resign(clause, res, doc=None, eid=None):
-    if clause == 'zero-height-float':
-        return 'zero-height-float-placed-at-page-origin'
-    mech = inline_float_mechanisms(res)
-    if 'E' in mech and clause.startswith('line-overlaps'):
-        return 'inline-float-text-not-shifted'
-    if 'D' in mech:
-        return 'inline-float-realigned-to-line-top'
-    if 'E' in mech:
-        return 'inline-float-text-not-shifted'
-    return None
+                'same grammar with up to 3 floats inside the text of each paragraph', 'floats')
+    docs = [{'html': gen_midline_doc(rng)} for _ in range(2000 if thorough else 400)]
+    S.add_monitor('render-floats-midline', 'render_floats', docs,
+                lambda d, o: (judge_floats(o), sum(1 for r in o['recs'] if r['kind'] == 'float')),
+                '1..3 paragraphs, each with 2..4 floated spans/divs met in the middle of the text of a line (after 1..3 '
+                'words, single words between them), widths around the room left on the line (room-30, room-10, room, '
+                'room+10, block width, wider than the block, small), left/right mixed, ltr/rtl, margins, sometimes a '
+                'block-level float before the paragraph; floats judged in SOURCE order by the nine rules (rule 5 over the '
+                'floats of one line, inside the containing block, no overlap), alarms attributed one by one to F50 / F51 / '
+                'F135 by their mechanism', 'floats')
 
 
 # ------------------------------------------------------------------------- monitor: absolutely positioned
@@ -1092,8 +1206,9 @@ def check_rel_monitor(S, rng, thorough):
 
 
 MONITORS = {
-    'render-floats': ('render_floats', lambda d, o: (judge_floats(o), 0), 'floats', float_resign),
-    'render-floats-inline': ('render_floats', lambda d, o: (judge_floats(o), 0), 'floats', float_resign),
+    'render-floats': ('render_floats', lambda d, o: (judge_floats(o), 0), 'floats', None),
+    'render-floats-inline': ('render_floats', lambda d, o: (judge_floats(o), 0), 'floats', None),
+    'render-floats-midline': ('render_floats', lambda d, o: (judge_floats(o), 0), 'floats', None),
     'render-absolute': ('render_abs', lambda d, o: judge_abs(d, o), 'abs', abs_resign),
     'render-fixed': ('render_positions', lambda d, o: judge_fixed(d, o), 'fixed', None),
     'render-relative': ('render_relative_pair', lambda d, o: judge_rel(d, o), 'relative', None),
@@ -1153,8 +1268,8 @@ def replay(data):
             print('replay: %s %s' % (st, o))
             return 1
         bad, _ = judge(d['doc'], o)
-        print('replay:', [(c, e) for c, e, _ in bad][:8])
-        return 1 if bad else 0
+        print('replay:', [(b[0], b[1], (b[3] if len(b) > 3 and b[3] else 'UNATTRIBUTED')) for b in bad][:8])
+        return 1 if any(len(b) < 4 or b[3] is None for b in bad) else 0
     if d.get('fn') and 'case' in d:
         import random
         S = Streams()
